@@ -10,6 +10,7 @@ import CoapVerif.Lemmas.BlockNetOnce
 import CoapVerif.Lemmas.BlockTok
 import CoapVerif.Lemmas.BlockAdl
 import CoapVerif.Lemmas.BlockNetTok
+import CoapVerif.Lemmas.BlockNetTok1
 /-
 C09 — block-wise transfer: the sender's body arrives intact, once, or the transfer fails explicitly.
 
@@ -1444,6 +1445,75 @@ example :
     s.cli.crcvs.map (fun e => (e.appTok, stateTokenBase e.state, e.retry)) = [(app, 2, 2)] ∧
     s.net.outs = [.next 1 0, .next 1 0, .randomAccess 16 ((exPar true).body.drop 16 |>.take 16) 33] ∧
     s.hToks = [([0x20, 0, 0, 0, 0, 1], [1])] := by
+  decide +kernel
+
+/-! ## Tokens in the composed Block1 system (round R09c, `Model/BlockNetTok1.lean`)
+
+`b1tStep` = `b1Step` with a token on every datagram (the application's on the first request,
+`STATE_TOKEN_FULL(lg_xmit->b.b1.state_token, ++count)` on every follow-up request, echoed by the server), the client's
+lg_xmit with application token / state token / count and its `lg_crcv` pointer, the lg_crcv `coap_send` sets up and
+links for the PUT, and `handle_response()`: `coap_handle_response_send_block` (lookup by token; `lg_xmit_finished:`
+restores the token only `if (!lg_crcv)`), then `coap_handle_response_get_block` (lookup by token, token restored, lg_crcv
+released), then the handler. -/
+
+/-- C09 "handlers only ever see the application's own token", Block1 direction, composed system, EVERY schedule (loss /
+duplication / reordering of requests and responses, repeated PUTs with the same token, time-outs of the lg_xmit, of the
+lg_crcv and of the server's lg_srcv at any moment, Confirmable or Non-confirmable, single-message bodies included), NO
+hypothesis: as long as no lg_xmit / lg_crcv of the session has been released, every response-handler call carries the
+application's token. -/
+theorem app_token_only_block1_composed (P : B1Par) (app : Bytes) (non : Bool) (evs : List B1TEvent) :
+    ∀ x ∈ (b1tRun P app non {} evs).hToks, x.2 = [] → x.1 = app := by
+  intro x hx hrel
+  rcases (b1tRun_inv P app non evs {} (t1Inv_init app)).shown x hx with h | h
+  · exact h
+  · rw [hrel] at h; cases h
+
+/-- the complement = the open finding `c09-late-message-raw-token` for PUT: a handler call that shows a token other than
+the application's shows one whose `STATE_TOKEN_BASE` is that of an lg_xmit / lg_crcv RELEASED before the response was
+dispatched (not merely before the handler ran: the lg_xmit that `lg_xmit_finished:` deletes on the way does not count —
+invariant `Cli1Inv.link`: an lg_xmit with `lg_crcv` set has an lg_crcv with the same state-token base, so
+coap_handle_response_get_block finds it and restores the token). -/
+theorem raw_token_only_after_release_block1 (P : B1Par) (app : Bytes) (non : Bool) (evs : List B1TEvent) :
+    ∀ x ∈ (b1tRun P app non {} evs).hToks, x.1 ≠ app → stateTokenBase (decodeVar8 x.1) ∈ x.2 := by
+  intro x hx hne
+  rcases (b1tRun_inv P app non evs {} (t1Inv_init app)).shown x hx with h | h
+  · exact absurd h hne
+  · exact h
+
+/-- ONE response dispatched by `handle_response()` in ANY session state satisfying the invariant -/
+theorem handler_token_step_block1 (room : Nat) (app : Bytes) (c : Cli1T) (tok : Bytes) (ok : Bool)
+    (blk : Option (Nat × Nat)) (hinv : Cli1Inv app c) (htok : Tok1OK app c tok) :
+    (rspStep1T room c tok ok blk).2.handler = true →
+      (rspStep1T room c tok ok blk).2.shown = app ∨
+      stateTokenBase (decodeVar8 (rspStep1T room c tok ok blk).2.shown) ∈ c.released :=
+  (rspStep1T_spec room app c tok ok blk hinv htok).2.2.2
+
+/-- the hypotheses of `handler_token_step_block1` are satisfiable on a non-trivial state: a linked lg_xmit + lg_crcv -/
+example : Cli1Inv [0xa1] { xmit := some { appTok := [0xa1], state := stateTokenFull 7 1, count := 3,
+                                            x := { data := [1, 2, 3], blkSize := 0 }, link := true },
+                           crcv := some { appTok := [0xa1], state := stateTokenFull 7 1, retry := 1 } } ∧
+    Tok1OK [0xa1] { xmit := some { appTok := [0xa1], state := stateTokenFull 7 1, count := 3,
+                                    x := { data := [1, 2, 3], blkSize := 0 }, link := true } }
+      (encodeVar8 (stateTokenFull 7 3)) :=
+  ⟨⟨fun xm h => (by cases h; rfl), fun cr h => (by cases h; rfl), fun xm h _ => (by cases h; exact ⟨_, rfl, rfl⟩)⟩,
+   Or.inr (Or.inl (Or.inl ⟨_, rfl, base_wire_any 7 3⟩))⟩
+
+/-- Lean witnesses (200-byte PUT, 32-byte blocks): a complete transfer shows the application's token with nothing
+released; the second variant of the server's final answer arriving afterwards (a duplicated final / error response — the
+open finding's class) shows the wire token 0x600000000002, base 2 released (lg_xmit and lg_crcv) -/
+example :
+    let app : Bytes := [0xa1, 0xa2]
+    let evs : List B1TEvent := [.appPut, .reqArrives 0, .rspArrives 0, .reqArrives 1, .rspArrives 1, .reqArrives 2,
+      .rspArrives 2, .reqArrives 3, .rspArrives 3, .reqArrives 4, .rspArrives 4, .reqArrives 5, .rspArrives 5, .rspArrives 6]
+    let s := b1tRun exPar1 app true {} evs
+    s.reqToks = [app, [0x20, 0, 0, 0, 0, 2], [0x30, 0, 0, 0, 0, 2], [0x40, 0, 0, 0, 0, 2], [0x50, 0, 0, 0, 0, 2],
+      [0x60, 0, 0, 0, 0, 2]] ∧ s.hToks = [(app, []), ([0x60, 0, 0, 0, 0, 2], [2, 2])] ∧ s.net.outs.length = 6 := by
+  decide +kernel
+/-- … and both time-outs in mid-transfer: the 2.31 for block 2 is handed to the handler under the wire token -/
+example :
+    let app : Bytes := [0xa1, 0xa2]
+    let evs : List B1TEvent := [.appPut, .reqArrives 0, .rspArrives 0, .reqArrives 1, .xmitExpire, .crcvExpire, .rspArrives 1]
+    (b1tRun exPar1 app true {} evs).hToks = [([0x20, 0, 0, 0, 0, 2], [2, 2])] := by
   decide +kernel
 
 end Coap.C09
